@@ -8,8 +8,8 @@ Definition C09_full : Prop :=
   forall cfg h k, (1 <= c_rank cfg)%nat -> hist_dom cfg h (st0 (Some k)) ->
     let '(outs, s') := run_life cfg h (st0 (Some k)) in Good cfg s' /\ Forall not_err outs.
 
-Definition cfg1 : config := mkcfg 1 false false false false false SoccSame.
-Definition cfg2 : config := mkcfg 2 false false false false false SoccSame.
+Definition cfg1 : config := mkcfg 1 false false false false false false false SoccSame.
+Definition cfg2 : config := mkcfg 2 false false false false false false false SoccSame.
 
 Lemma no_owner_if_all_free s b :
   (forall r, get_slot s r = None) -> forall r, ~ owner_of s b r.
